@@ -173,6 +173,13 @@ def case_pair(case):
     if layer != "ParserHelper":
         inv = 1 / v
         expect(layer, ty, inv, m_pow(mv, Fraction(-1)), f"rdiv({mv})", names)
+    else:
+        # mixed operands: a ParserHelper combined with a plain UnitsContainer / dict (either side) follows the same group law
+        vc = build("UnitsContainer", ty, mv, names)
+        vd = dict(vc.items())
+        for tag, got, want in (("ph*uc", u * vc, m_mul(mu, mv)), ("ph/uc", u / vc, m_div(mu, mv)), ("ph*dict", u * vd, m_mul(mu, mv)), ("ph/dict", u / vd, m_div(mu, mv)),
+                               ("dict/ph", vd / u, m_div(mv, mu)), ("dict*ph", vd * u, m_mul(mu, mv))):
+            expect(layer, ty, got, want, f"{tag}({lab})", names)
     for p in case["powers"]:
         pp = conv_pow(p, ty)
         up = u ** pp
@@ -309,6 +316,11 @@ def case_random(case, col=None):
     case_triple_real(c)
 
 
+def hash_free(m):
+    """a small deterministic number derived from a model dict (no hash())"""
+    return sum(len(k) * 7 + int(Fraction(e) * 12) for k, e in m.items()) + len(m)
+
+
 def _pair_real(case):
     """case_pair on real unit names for the Unit layer (dimension bookkeeping through R)."""
     ty = case["ty"]
@@ -339,6 +351,17 @@ def _pair_real(case):
         got = env.uc_to_dict(obj.dimensionality)
         if got != rdim(mm):
             raise Violation(f"dimensionality_of_{tag}", f"{mu}|{mv}: pint {got}, R {rdim(mm)}")
+    # dimensionality of containers of dimension names (derived dimensions carry their exponent through the expansion)
+    dn = sorted(R.dimensions)
+    if dn:
+        k1, k2 = dn[hash_free(mu) % len(dn)], dn[hash_free(mv) % len(dn)]
+        for cont in ({k1: 2}, {k1: -1}, {k1: 1, k2: -2}, {k1: 3, "[time]": -1}):
+            got = env.uc_to_dict(ureg.get_dimensionality(ureg.UnitsContainer({k: conv_exp(Fraction(e), ty) for k, e in cont.items()})))
+            from ..oracle.defreader import V
+
+            want = R.dim_of_dimexpr(V(Fraction(1), {k: Fraction(e) for k, e in cont.items()}))
+            if got != want:
+                raise Violation("dimensionality_of_dimension_container", f"get_dimensionality({cont}) = {got}, definitions give {want}")
     # the same homomorphism inside pint: dim(u*v) == dim(u)*dim(v), dim(u/v) == dim(u)/dim(v), dim(u**p) == dim(u)**p (== and hash),
     # and dimensionalities keep the registry's exponent type (no binary floats in a Fraction/Decimal registry)
     du, dv = u.dimensionality, v.dimensionality
